@@ -99,7 +99,7 @@ EvRet ==
        /\ (p.op = "stats") =>
              /\ Ev.av = p.snap[1] /\ Ev.cr = p.snap[2] /\ Ev.ac = p.snap[3] /\ Ev.rl = p.snap[4]
              /\ \/ Ev.ds = p.snap[6]
-                \/ Ev.ds = p.snap[5] /\ PrintT(<<"OBS", "ClearNotCounted", l>>)
+                \/ Ev.ds = p.snap[5] /\ p.snap[5] # p.snap[6] /\ PrintT(<<"OBS", "ClearNotCounted", l>>)
        /\ P(t, Idle)
     /\ UNCHANGED <<free, held, dead, max, ncreated, cnt, cfg>>
 
